@@ -1,4 +1,5 @@
 import Mkdb.Proofs.Tuple
+import Mkdb.Proofs.ColumnNames
 /-!
 # C08 — stored values read back exactly; invalid values are refused (row codec part)
 
@@ -55,5 +56,13 @@ theorem C08_refuse_kind (fd : FieldDef) (v : Val) :
 example : ∃ bs, encodeTuple [⟨"a", .int, 0⟩, ⟨"b", .varchar, 255⟩, ⟨"c", .boolean, 0⟩, ⟨"d", .bigint, 0⟩]
     [("a", .int (-2147483648)), ("b", .str [0xff, 0]), ("d", .int 9223372036854775807)] = .ok bs := by
   exact ⟨_, rfl⟩
+
+/-- **C08.distinct_names_hold_for_every_table**: the hypothesis `hnd` of `C08_tuple_roundtrip` (distinct
+column names) is not an assumption about users: CREATE TABLE passes its per-column checks only if the
+column names are distinct (repair 2046ccc; before it `CREATE TABLE t (a int, a int)` was accepted and
+`INSERT ... VALUES (1, 2)` read back as (2, 2) - the excluded point of that hypothesis was a defect). -/
+theorem C08_distinct_names_hold_for_every_table (fields : List FieldDef)
+    (h : Mkdb.Store.checkFieldsFrom [] fields = none) : (fields.map (·.name)).Nodup :=
+  ((Mkdb.Store.checkFields_none_iff fields).mp h).2
 
 end Mkdb.Tuple
